@@ -313,3 +313,15 @@ func SGXExtension(p Platform) []byte {
 	top, tcb := SGXElems(p)
 	return DERSeq(top["ppid"], SGXTcbElem(tcb), top["pceid"], top["fmspc"], top["type"])
 }
+
+// ClonePKI builds a look-alike of src that also copies every serial number (an attacker chooses
+// the serials of the certificates he issues): same names, same serials, same validity, other keys.
+func ClonePKI(src *PKI, name string, plat Platform) *PKI {
+	p := &PKI{Name: name, RootKey: NewKey(name + "/root"), InterKey: NewKey(name + "/inter"), LeafKey: NewKey(name + "/leaf"), TcbKey: NewKey(name + "/tcb")}
+	p.Root = MakeCert(CertSpec{CN: CNRoot, IsCA: true, Key: p.RootKey, MaxPathLen: 1, Serial: src.Root.SerialNumber, NotBefore: src.Root.NotBefore, NotAfter: src.Root.NotAfter}, nil, p.RootKey)
+	p.Inter = MakeCert(CertSpec{CN: CNPlatform, IsCA: true, Key: p.InterKey, MaxPathLen: -1, Serial: src.Inter.SerialNumber}, p.Root, p.RootKey)
+	p.Leaf = MakeCert(CertSpec{CN: CNLeaf, Key: p.LeafKey, SGXExt: SGXExtension(plat), Serial: src.Leaf.SerialNumber,
+		CRLDP: []string{"https://api.trustedservices.intel.com/sgx/certification/v4/pckcrl?ca=platform&encoding=der"}}, p.Inter, p.InterKey)
+	p.Tcb = MakeCert(CertSpec{CN: CNTcb, Key: p.TcbKey, Serial: src.Tcb.SerialNumber}, p.Root, p.RootKey)
+	return p
+}
